@@ -98,10 +98,21 @@ def _work(args):
                         % (canon(case)[:2000], _strip(res)[:2000],
                            _strip(res2)[:2000]))
                     continue
-        except Exception:
-            out['harness'].append('exception in harness for case %s\n%s'
-                                  % (canon(case)[:2000], traceback.format_exc()))
-            continue
+        except Exception as e:
+            tb = traceback.extract_tb(e.__traceback__)
+            if tb and tb[-1].filename.startswith(env.REPO_SRC):
+                # raised inside the implementation and not contained by it:
+                # the check's own oracle never got to judge the case
+                res = {'violations': [{
+                    'clause': 'exception_escaped_from_implementation',
+                    'sig': {'exc': type(e).__name__,
+                            'where': '%s:%s' % (os.path.basename(tb[-1].filename), tb[-1].name)},
+                    'detail': traceback.format_exc()[-2500:]}],
+                    'outcome': 'implementation raised'}
+            else:
+                out['harness'].append('exception in harness for case %s\n%s'
+                                      % (canon(case)[:2000], traceback.format_exc()))
+                continue
         out['cases'] += 1
         out['evals'] += res.get('evals', 1)
         nt = res.get('nontrivial', True)
